@@ -12,7 +12,8 @@ with open(f"{wt}/_seed/PROPERTY.md", "w") as f:
     for m in p["anchors"]["mechanism"]:
         f.write(f"- {m['name']}: {m['where']}\n")
     f.write("\nObserved at: " + "; ".join(p["anchors"]["observe_at"]) + "\n")
-fail = open("/tmp/baseline_fail.txt").read().split()
+fail = open("/tmp/baseline_fail_now.txt" if os.path.exists("/tmp/baseline_fail_now.txt") else "/tmp/baseline_fail.txt").read().split()
+letters = sys.argv[3] if len(sys.argv) > 3 else "AB"  # names of the two changes asked for (a later round uses CD, EF ...)
 with open(f"{wt}/_seed/TASK.md", "w") as f:
     f.write(f"""# Task
 
@@ -48,4 +49,14 @@ No network is available. Do not commit.
 
 Already-failing tests on the unmodified tree (ignore): {', '.join(fail)}
 """)
-print("ok", pid, wt)
+if letters != "AB":
+    t = open(f"{wt}/_seed/TASK.md").read()
+    for old, new in (("_seed/A", f"_seed/{letters[0]}"), ("_seed/B", f"_seed/{letters[1]}"), ("(call them A and B;", f"(call them {letters[0]} and {letters[1]};"),
+                     ("For each of A and B", f"For each of {letters[0]} and {letters[1]}")):
+        t = t.replace(old, new)
+    open(f"{wt}/_seed/TASK.md", "w").write(t)
+t = open(f"{wt}/_seed/TASK.md").read()
+t = t.replace("(36 tests fail already on the unmodified tree, listed below; ignore those)", f"({len(fail)} tests fail already on the unmodified tree, listed below; ignore those)")
+t = t.replace("about 8 minutes, 349 pass / 36 fail on the", f"about 5 minutes, {len(fail)} tests fail on the")
+open(f"{wt}/_seed/TASK.md", "w").write(t)
+print("ok", pid, wt, letters)
